@@ -29,7 +29,7 @@ ASSUMPTIONS = [
   "compared here (C13/C30 own that: reset_data leaves Data.history stale), the metamorphic oracle uses the real reset_data",
   "first-divergence rule for trajectories (bit / <=1e-4 round-off / >=1e-2 violated)",
 ]
-BUDGET = {"quick": 150, "thorough": 1200}
+BUDGET = {"quick": 300, "thorough": 1500}
 
 KEYF = ("time", "qpos", "qvel", "act", "ctrl", "mocap_pos", "mocap_quat")
 OTHER = ("qacc_warmstart", "qfrc_applied", "xfrc_applied", "eq_active", "userdata")
